@@ -379,15 +379,16 @@ Definition h_completion_or_abort (ixc : N) (_ : unit) (i : N) (v : value) : opti
   (Some (if i =? ixc then ROk tt else RErr (EAborted (abort_code v))), tt).
 Definition h_until_completion (ixc ixa : N) (_ : unit) (i : N) (v : value) : option (cres unit) * unit :=
   (if i =? ixc then Some (ROk tt) else if i =? ixa then Some (RErr (EAborted (abort_code v))) else None, tt).
-Definition h_pending (ixa : N) (_ : unit) (i : N) (v : value) : option (cres (list N)) * unit :=
-  (Some (if i =? ixa then
-           (* since the fix of F11: the answer to the query carries ErrorPreAuthorization (0xB8); any other code aborts the query *)
+Definition h_pending (ixa : N) (skips : list N) (_ : unit) (i : N) (v : value) : option (cres (list N)) * unit :=
+  if i =? ixa then
+    (Some ((* since the fix of F11: the answer to the query carries ErrorPreAuthorization (0xB8); any other code aborts the query *)
            if negb (abort_code v =? 184) then RErr (EAborted (abort_code v)) else
            match field_of "zvt::packets::PartialReversalAbort" v 135 with
            | Some (VSome (VInt r)) => if r =? 65535 then ROk [] else ROk [r]
            | _ => ROk []
-           end
-         else RErr EUnexpectedPacket), tt).
+           end), tt)
+  else if existsb (N.eqb i) skips then (None, tt)     (* since the fix of F17: progress reports are skipped, as in every other exchange *)
+  else (Some (RErr EUnexpectedPacket), tt).
 Definition h_eod (ixc ixa : N) (_ : unit) (i : N) (v : value) : option (cres unit) * unit :=
   (if i =? ixc then Some (ROk tt)
    else if i =? ixa then Some (if abort_code v =? 160 then ROk tt else RErr (EAborted (abort_code v)))
@@ -436,7 +437,10 @@ Definition get_pending (cfg : config) (w : world) : cres (list N) * world :=
   let cmd := mk_cmd "zvt::packets::PartialReversal" [] [(135, VSome (VInt 65535))] in
   let q := seq_of "zvt::sequences::PartialReversal" cmd in
   let ixa := variant_ix "zvt::sequences::PartialReversalResponse" "PartialReversalAbort" in
-  let '(r, w') := consume LOOPFUEL cfg (start_retry q TIMEOUT) w tt (h_pending ixa) (fun _ => RErr EIncomplete) in
+  let skips := [variant_ix "zvt::sequences::PartialReversalResponse" "IntermediateStatusInformation";
+                variant_ix "zvt::sequences::PartialReversalResponse" "PrintLine";
+                variant_ix "zvt::sequences::PartialReversalResponse" "PrintTextBlock"] in
+  let '(r, w') := consume LOOPFUEL cfg (start_retry q TIMEOUT) w tt (h_pending ixa skips) (fun _ => RErr EIncomplete) in
   (* since the fix of F13: an unexpected reply leaves the exchange unfinished, so the connection is abandoned (TcpStream::reset) *)
   match r with
   | RErr EUnexpectedPacket => (r, drop_cur w')
@@ -499,6 +503,11 @@ Definition canon_uid (u : list N) : list N :=
 Definition has_application (s : value) : bool :=
   match field_of "zvt::packets::tlv::Subs" s 67 with Some (VSome _) => true | _ => false end.
 
+(* every application entry the terminal lists for the card: top level, then the "applications on card" container *)
+Definition application_list (tlv : value) : list value :=
+  (match field_of "zvt::packets::tlv::StatusInformation" tlv 96 with Some (VList l) => l | _ => [] end) ++
+  (match field_of "zvt::packets::tlv::StatusInformation" tlv 98 with Some (VSome (VRec [VList l])) => l | _ => [] end).
+
 (* the classification of read_card: a fold over the replies *)
 Definition h_read_card (ixa ixs : N) (acc : option card) (i : N) (v : value) : option (cres card) * option card :=
   if i =? ixa then
@@ -507,12 +516,17 @@ Definition h_read_card (ixa ixs : N) (acc : option card) (i : N) (v : value) : o
   else if i =? ixs then
     match field_of "zvt::packets::StatusInformation" v 6 with
     | Some (VSome tlv) =>
-        match field_of "zvt::packets::tlv::StatusInformation" tlv 96, field_of "zvt::packets::tlv::StatusInformation" tlv 76 with
-        | Some (VList (s0 :: sr)), _ =>
+        (* since the fix of F16: the applications are listed at the top level (tag 0x60) or in the "applications on card"
+           container (tag 0x62), as the cVEND sends them *)
+        match application_list tlv with
+        | s0 :: sr =>
             (* since the fix of F12: a payment application ANYWHERE in the list (before: only in its first entry) *)
             if existsb has_application (s0 :: sr) then (None, Some CBank) else (Some (RErr EUnknownCardType), acc)
-        | _, Some (VSome (VStr u)) => (None, Some (CMember (canon_uid u)))
-        | _, _ => (Some (RErr EIncomplete), acc)
+        | [] =>
+            match field_of "zvt::packets::tlv::StatusInformation" tlv 76 with
+            | Some (VSome (VStr u)) => (None, Some (CMember (canon_uid u)))
+            | _ => (Some (RErr EIncomplete), acc)
+            end
         end
     | _ => (Some (RErr EIncomplete), acc)
     end
